@@ -16,6 +16,7 @@ Correspondence (model vs code -> `divergence`): value, wrapper flag of every con
 import copy, json, operator, os, pickle, sqlite3, sys
 
 from pony.orm import Database, Required, Optional, Json, IntArray, StrArray, db_session, commit, flush
+from pony.orm import core
 from pony.orm.ormtypes import TrackedValue, TrackedArray
 
 sys.path.insert(0, os.path.dirname(os.path.dirname(os.path.abspath(__file__))))
@@ -402,8 +403,19 @@ def execute(env, attr, init, prog, created=False, source=None):
         con = env.db.get_connection()
         row = con.execute('select %s from "E" where id = ?' % attr, (st['pk'],)).fetchone()
         return None if row[0] is None else json.loads(row[0])
+    def real_status():
+        e = st['e']; cache = e._session_cache_
+        if cache is None or not cache.is_alive: return 'over'
+        return 'deleted' if e._status_ in ('marked_to_delete', 'deleted') else e._status_
     def snap(err, after_flush=False):
-        s = {'err': err, 'dirty': dirty(), 'doc': to_T(rootval(), akind, (st['e'], getattr(E, attr))), 'status': st['e']._status_}
+        rs = real_status()
+        unreadable = rs == 'deleted'      # the value of a deleted object cannot be read through the attribute any more
+        if rs == 'over':                  # ... nor a value that was dropped from the session (volatile attribute after the commit)
+            try: rootval()
+            except core.OrmError: unreadable = True
+        if unreadable:
+            return {'err': err, 'dirty': 'n/a', 'doc': None, 'status': rs}
+        s = {'err': err, 'dirty': dirty() if rs != 'over' else 'n/a', 'doc': to_T(rootval(), akind, (st['e'], getattr(E, attr))), 'status': rs}
         if after_flush: s['db'] = to_T(raw_column(), akind, False)
         return s
     def check_persisted(at, where):
@@ -411,6 +423,9 @@ def execute(env, attr, init, prog, created=False, source=None):
         if dbv != insess:
             res.losses.append({'at': at, 'kind': where, 'observed': dbv, 'expected': insess})
     def check_mirror(at):
+        if st.get('dead'):
+            try: rootval()
+            except core.OrmError: return
         a = canon(rootval()); b = canon(st['mirror'])
         if a != b: res.mirror_diffs.append({'at': at, 'what': 'value', 'real': a, 'mirror': b})
     # ---- set up
@@ -429,6 +444,7 @@ def execute(env, attr, init, prog, created=False, source=None):
         ds.__enter__()
         st['e'] = E[st['pk']]; st['e2'] = E[st['pk2']]
         st['mirror'] = copy.deepcopy(plain(rootval()))
+        st['committed'] = canon(st['mirror'])
         res.init_T = to_T(st['mirror'], akind, False)
     def real_ref(ref):
         if ref[0] == 'var': return st['vars'][ref[1]]
@@ -440,7 +456,7 @@ def execute(env, attr, init, prog, created=False, source=None):
         out = {}
         for ref in refs_of(op):
             try: out[json.dumps(ref)] = real_ref(ref)
-            except (KeyError, IndexError, TypeError): return None
+            except (KeyError, IndexError, TypeError, core.OrmError): return None
         return out
     def others_clean(at):
         """the other attributes of the object and the other object are not touched by what is done to this attribute"""
@@ -482,7 +498,7 @@ def execute(env, attr, init, prog, created=False, source=None):
                     x = rootval(); y = st['mirror']
                     for s in op['path']: x = x[s]; y = y[s]
                     st['vars'][op['var']] = x; st['mvars'][op['var']] = y
-                except (KeyError, IndexError, TypeError):
+                except (KeyError, IndexError, TypeError, core.OrmError):
                     st['vars'].pop(op['var'], None); st['mvars'].pop(op['var'], None)
                 continue
             if o in ('call', 'read'):
@@ -510,7 +526,8 @@ def execute(env, attr, init, prog, created=False, source=None):
                 if not array_reject:
                     try: do_call(y, c)
                     except Exception as ex: merr = type(ex).__name__
-                    if rerr != merr: res.mirror_diffs.append({'at': idx, 'what': 'exception', 'real': rerr, 'mirror': merr})
+                    dead_exc = st.get('dead') and rerr in ('DatabaseSessionIsOver', 'OperationWithDeletedObjectError')
+                    if rerr != merr and not dead_exc: res.mirror_diffs.append({'at': idx, 'what': 'exception', 'real': rerr, 'mirror': merr})
                 if merr is not None and canon(y) != before_m:
                     res.partial = True
                     if c['n'] == 'sort' and mm is not None and len(y) == len(old_items):
@@ -522,7 +539,11 @@ def execute(env, attr, init, prog, created=False, source=None):
                         mm = {'n': 'sortRaise', 'perm': perm}
                     else:
                         res.model_valid = False
-                if rerr is not None and rerr == merr and (canon(rootval()) != canon(st['mirror']) or canon(x) != canon(y)):
+                if st.get('dead') == 'deleted':
+                    if canon(x) != canon(y): res.mirror_diffs.append({'at': idx, 'what': 'value of the wrapper of a deleted object', 'real': canon(x), 'mirror': canon(y)})
+                elif st.get('dead'):
+                    check_mirror(idx)
+                elif rerr is not None and rerr == merr and (canon(rootval()) != canon(st['mirror']) or canon(x) != canon(y)):
                     # both raised, but the part of the change that happened before the exception differs (Pony converts the iterable
                     # first, plain Python consumes it while changing the list): not the property; the program ends here
                     res.stopped = True
@@ -534,8 +555,8 @@ def execute(env, attr, init, prog, created=False, source=None):
                         if len(paths) > 1: res.shared += 1
                         for p in paths: res.model_ops.append({'t': c['t'], 'p': p, 'm': mm})
                         res.snaps.append((len(res.model_ops) - 1, snap(rerr), idx))
-                    elif isinstance(x, TrackedValue) and notifying(x, c) and (rerr is None or (FACTS.get('notifyOnError') and not array_reject)):
-                        res.model_ops.append({'t': 'touch'}); res.snaps.append((len(res.model_ops) - 1, snap(None), idx))
+                    elif isinstance(x, TrackedValue) and notifying(x, c) and not array_reject and (merr is None or FACTS.get('notifyOnError')):
+                        res.model_ops.append({'t': 'touch'}); res.snaps.append((len(res.model_ops) - 1, snap(rerr if st.get('dead') else None), idx))
                 RESOLVE[0] = None
                 others_clean(idx)
                 if res.stopped: break
@@ -558,6 +579,38 @@ def execute(env, attr, init, prog, created=False, source=None):
                 rootval()
                 after = (e._status_, e._wbits_, len(env.updates()))
                 if before != after: res.read_dirty.append({'at': idx, 'read': 'attribute', 'before': before, 'after': after})
+                continue
+            if o in ('end', 'delete', 'rollback'):
+                if st.get('dead'): continue
+                if o == 'end':
+                    st['committed'] = canon(rootval())
+                    try: ds.__exit__(None, None, None)
+                    except Exception as ex:
+                        res.losses.append({'at': idx, 'kind': 'raised', 'observed': 'commit raised %s: %s' % (type(ex).__name__, str(ex)[:80]), 'expected': st['committed']})
+                        res.model_valid = False; return res
+                    if st['pk'] is None: st['pk'] = st['e'].id
+                    st['dead'] = 'over'
+                    if res.model_valid: res.model_ops.append({'t': 'endSession'}); res.snaps.append((len(res.model_ops) - 1, snap(None), idx))
+                elif o == 'delete':
+                    st['e'].delete(); st['dead'] = 'deleted'
+                    if res.model_valid: res.model_ops.append({'t': 'delete'}); res.snaps.append((len(res.model_ops) - 1, snap(None), idx))
+                else:
+                    if st['pk'] is None: continue               # (never committed: nothing to compare with)
+                    from pony.orm import rollback
+                    rollback(); st['dead'] = 'rolled back'; res.model_valid = False
+                continue
+            if st.get('dead') and o in ('flush', 'commit', 'reload', 'other', 'assign', 'readattr'):
+                if o in ('assign', 'other'):
+                    # `__set__` raises before anything happens
+                    try:
+                        if o == 'assign' and not refs_of(op): setattr(st['e'], attr, dec(op['v']))
+                        elif o == 'other': st['e'].tag = 'dead'
+                        else: continue
+                        res.mirror_diffs.append({'at': idx, 'what': 'assignment to a dead object did not raise', 'real': None, 'mirror': 'exception'})
+                    except Exception as ex:
+                        if res.model_valid and not (o == 'assign' and akind is not None):
+                            res.model_ops.append({'t': 'other'} if o == 'other' else {'t': 'assign', 'v': to_T_raw(dec(op['v']))})
+                            res.snaps.append((len(res.model_ops) - 1, snap(type(ex).__name__), idx))
                 continue
             if o == 'other':
                 env.ntag += 1
@@ -627,6 +680,7 @@ def execute(env, attr, init, prog, created=False, source=None):
                     st['quiet'] = True
                     continue
                 check_persisted(idx, o)
+                if o == 'commit': st['committed'] = canon(rootval())
                 if res.model_valid:
                     res.model_ops.append({'t': 'flush'})
                 if attr in env.volatile and saved:
@@ -653,12 +707,26 @@ def execute(env, attr, init, prog, created=False, source=None):
                 loaded = canon(rootval())
                 if loaded != insess: res.losses.append({'at': idx, 'kind': 'new session', 'observed': loaded, 'expected': insess})
                 if canon(st['mirror']) != insess: res.mirror_diffs.append({'at': idx, 'what': 'value at end of session', 'real': insess, 'mirror': canon(st['mirror'])})
-                st['mirror'] = copy.deepcopy(plain(rootval()))
+                st['mirror'] = copy.deepcopy(plain(rootval())); st['committed'] = canon(st['mirror'])
                 if res.model_valid:
                     res.model_ops.append({'t': 'reload', 'v': to_T(st['mirror'], akind, False)}); res.snaps.append((len(res.model_ops) - 1, snap(None, True), idx))
                 continue
             raise ValueError(o)
         # end of program = end of session
+        if st.get('dead'):
+            # nothing done to the dead object may reach the database: it holds what was committed last
+            if st['dead'] != 'over':
+                try: ds.__exit__(None, None, None)
+                except Exception as ex:
+                    res.losses.append({'at': len(prog), 'kind': 'raised', 'observed': 'commit raised %s' % type(ex).__name__, 'expected': st.get('committed')}); return res
+            with db_session:
+                obj = E.get(id=st['pk']) if st['pk'] is not None else None
+                loaded = canon(getattr(obj, attr)) if obj is not None else None
+            if st['dead'] == 'deleted':
+                if obj is not None: res.mirror_diffs.append({'at': len(prog), 'what': 'deleted object is still in the database', 'real': loaded, 'mirror': None})
+            elif loaded != st.get('committed'):
+                res.losses.append({'at': len(prog), 'kind': 'dead object', 'observed': loaded, 'expected': st.get('committed')})
+            return res
         others_clean(len(prog))
         quiet_before = any(p_.get('quiet') for p_ in prog)
         insess = canon(st['mirror']) if quiet_before else canon(rootval())
@@ -810,7 +878,7 @@ def random_program(env, rng, attr, nops, danger, created=False):
     elif akind == 'iarr': init = [rng.choice([0, 1, 2, 5, -3]) for _ in range(rng.choice([0, 1, 3, 5]))]
     else: init = [rng.choice(['a', 'b', '', 'zz']) for _ in range(rng.choice([0, 1, 3, 5]))]
     if created and akind is None: init = enc(json.loads(json.dumps(plain(dec(init)))))     # (no tuples in rand_doc anyway)
-    left = [nops]
+    left = [nops]; dead = [None]
     stale = set()          # volatile attribute: variables bound before the last save no longer refer into the value
     def source(root, mvars):
         ops = source1(root, mvars)
@@ -822,8 +890,27 @@ def random_program(env, rng, attr, nops, danger, created=False):
             left[0] -= 1
             r = rng.random()
             conts = containers(root)
+            if dead[0]:
+                # the object is dead (session over / deleted / rolled back): a few more calls through the wrappers the program still holds
+                live_ = sorted(v for v in mvars if isinstance(mvars[v], (list, dict)))
+                if dead[0] == 'end' and conts and (not live_ or rng.random() < 0.4):
+                    path, y = rng.choice(conts); var = 'x%d' % g.nvar; g.nvar += 1
+                    pre = [{'op': 'take', 'var': var, 'path': path}]
+                elif live_:
+                    var = rng.choice(live_); y = mvars[var]; pre = []
+                else: return None
+                if rng.random() < 0.15: return [{'op': rng.choice(['other', 'assign']), 'v': 1} if akind is None else {'op': 'other'}]
+                g.refs = []
+                op = g.list_call(y, akind) if isinstance(y, list) else g.dict_call(y)
+                op['var'] = var
+                return pre + [op]
             if r < 0.10 or not conts:
                 o = rng.choice(['flush', 'flush', 'commit', 'reload', 'assign', 'assign', 'readattr', 'other', 'other'])
+                if rng.random() < 0.12 and left[0] < nops - 1:
+                    o = rng.choice(['end', 'end', 'delete', 'rollback'])
+                    if not (o == 'rollback' and created):
+                        dead[0] = o; left[0] = min(left[0], 4)
+                        return [{'op': o}]
                 if o == 'assign':
                     live_ = sorted(v for v in mvars if isinstance(mvars[v], (list, dict)) and v not in stale)
                     if akind is None:
@@ -975,6 +1062,8 @@ def compare_model(ctx, batch, env=None, facts=None):
             if not out['argsW'][mi]: ctx.count('model:guard argsW false')
             got = {'err': s['err'], 'dirty': s['dirty'], 'status': s['status'], 'doc': s['doc']}
             exp = {'err': m['err'], 'dirty': m['dirty'], 'status': m['status'], 'doc': strip_keys(m['doc'])}
+            if m['status'] in ('over', 'deleted'): exp['dirty'] = 'n/a'
+            if got['doc'] is None: exp['doc'] = None
             if m['err']: ctx.count('model-err:' + m['err'])
             if 'db' in s:
                 got['db'] = sort_T(s['db']); exp['db'] = sort_T(strip_keys(m['db']))
